@@ -171,31 +171,37 @@ def has_unsafe(text):
     return any(k == "ident" and t == "unsafe" for k, t in tokenize(text))
 
 
+KEYWORDS = {"impl", "mut", "for", "as", "dyn", "in", "where", "fn", "let", "const", "pub", "return", "if", "else", "match", "ref", "use"}
+
+
 def paths(text):
-    """all `a :: b :: c` paths of the expansion as tuples of idents (leading `::` marked by '')"""
+    """all `a :: b :: c` paths of the expansion as tuples of idents (a leading `::` is marked by a first element '')"""
     toks = tokenize(text)
     out = []
     i = 0
     n = len(toks)
+
+    def is_sep(j):
+        return j + 1 < n and toks[j] == ("punct", ":") and toks[j + 1] == ("punct", ":")
+
     while i < n:
         k, t = toks[i]
-        lead = False
-        if k == "punct" and t == ":" and i + 2 < n and toks[i + 1][1] == ":" and toks[i + 2][0] == "ident" and (i == 0 or toks[i - 1][0] != "ident") and not (i > 0 and toks[i - 1][1] == ">"):
-            lead = True
-            i += 2
-            k, t = toks[i]
-        if k == "ident":
+        if k == "ident" and t not in KEYWORDS:
+            # is this the start of a path? (not preceded by `::`)
+            if i >= 2 and is_sep(i - 2):
+                prev = toks[i - 3] if i >= 3 else None
+                arrow = prev is not None and prev[1] == ">" and i >= 4 and toks[i - 4][1] == "-"
+                lead = prev is None or arrow or not ((prev[0] == "ident" and prev[1] not in KEYWORDS) or prev[1] == ">")
+                if not lead:
+                    i += 1
+                    continue
+            else:
+                lead = False
             segs = [t]
             j = i + 1
-            while j + 2 < n and toks[j][1] == ":" and toks[j + 1][1] == ":" and toks[j][0] == "punct":
-                if toks[j + 2][0] == "ident":
-                    segs.append(toks[j + 2][1])
-                    j += 3
-                elif toks[j + 2][1] == "<":     # turbofish
-                    j += 2
-                    break
-                else:
-                    break
+            while is_sep(j) and j + 2 < n and toks[j + 2][0] == "ident":
+                segs.append(toks[j + 2][1])
+                j += 3
             if len(segs) > 1 or lead:
                 out.append(tuple(([""] if lead else []) + segs))
             i = j
